@@ -186,7 +186,7 @@ def generate(prop, rng, tier):
     meshes = {"m%d" % i: gen_mesh(rng) for i in range(n_mesh)}
     ops = []
     geoms = {}      # name -> mesh key (as the generator believes)
-    n_ops = rng.randint(4, 12)
+    n_ops = rng.randint(4, 12) if rng.random() > 0.03 else rng.randint(25, 40)
     gnames = ["1", "2", "part-A", "geo 3"]
     states = ["STATE-1", "STATE-2", "s"]
     set_counter = 0
@@ -937,3 +937,27 @@ def describe(prop):
                             "calls the model considers invalid but the exporter accepts end the run without alarm (C20 does not say which calls must raise)"],
             "required_probes": ["fault:before:create_group", "fault:before:create_dataset", "fault:before:attr_create", "fault:after:create_group",
                                 "fault:after:create_dataset", "fault:after:attr_create", "probe:retry_after_fault_succeeded", "probe:variable_read_back", "probe:set_filtered", "probe:filter_then_join"]}
+
+
+def canary():
+    """A fresh exporter and importer on a fixed tiny mesh in a scratch file."""
+    d = _scratch()
+    try:
+        path = os.path.join(d, "c.vmap")
+        idx = pd.MultiIndex.from_tuples([(2, 5), (2, 1), (2, 9), (1, 1), (1, 9), (1, 4)], names=["element_id", "node_id"])
+        mesh = pd.DataFrame({"x": [0.0, 1.0, 2.0, 1.0, 2.0, 3.0], "y": [0.5, 1.5, 2.5, 1.5, 2.5, 3.5],
+                             "S11": [1.0, 2.0, 3.0, 4.0, 5.0, 6.0], "S22": 0.0, "S33": 0.0, "S12": 0.0, "S13": 0.0, "S23": 0.0}, index=idx)
+        exp = VMAPExport(path)
+        exp.add_geometry("g", mesh)
+        exp.add_node_set("g", pd.Index([9, 1]), mesh, "ns")
+        exp.add_variable("S", "g", "STRESS_CAUCHY", mesh)
+        imp = VMAPImport(path)
+        try:
+            df = imp.make_mesh("g", "S").join_coordinates().join_variable("STRESS_CAUCHY").to_frame()
+            flt = imp.make_mesh("g").filter_node_set("ns").to_frame()
+            obs = [_frame_rows(df), [[float(x) for x in r] for r in df[["x", "y", "S11"]].to_numpy()], _frame_rows(flt), sorted(imp.node_sets("g"))]
+        finally:
+            _close(imp)
+        return obs
+    finally:
+        shutil.rmtree(d, ignore_errors=True)
